@@ -67,3 +67,6 @@ pub use frontend::{
     Options, Resources, WorkerTree,
 };
 pub use parser::{Parser, ParserError};
+
+#[cfg(feature = "verif-hooks")]
+pub use frontend::verif_hooks;
